@@ -334,8 +334,8 @@ pub fn streams() -> Vec<Stream> {
     vec![
         Stream { name: "universe1", kind: Kind::Enum { count: |_| universe1().len() as u64, complete: |_| true, f: e_universe1 }, isolate: false },
         Stream { name: "universe2", kind: Kind::Enum { count: |t: Tier| t.pick(6_000, universe1().len() as u64 * 12), complete: |t: Tier| t == Tier::Thorough, f: e_universe2 }, isolate: false },
-        Stream { name: "sampled", kind: Kind::Tape { cases: |t: Tier| t.pick(20_000, 500_000), max_len: 1200, f: s_sampled }, isolate: false },
-        Stream { name: "casts", kind: Kind::Tape { cases: |t: Tier| t.pick(6_000, 200_000), max_len: 300, f: s_casts }, isolate: false },
+        Stream { name: "sampled", kind: Kind::Tape { cases: |t: Tier| t.pick(30_000, 600_000), max_len: 1200, f: s_sampled }, isolate: false },
+        Stream { name: "casts", kind: Kind::Tape { cases: |t: Tier| t.pick(8_000, 250_000), max_len: 300, f: s_casts }, isolate: false },
         Stream { name: "pairs", kind: Kind::Enum { count: |t: Tier| { let n = small_types().len() as u64; t.pick((n * n).min(60_000), n * n) }, complete: |t: Tier| { let n = small_types().len() as u64; t == Tier::Thorough || n * n <= 60_000 }, f: e_pairs }, isolate: false },
     ]
 }
